@@ -717,7 +717,7 @@ def exec_flag_guard(ctx, b, sites):
                         out.setdefault(fs[-1], []).append((x, v))
         return out
     st_he = flag_stores(he)
-    execs = [i for i, t in he.calls() if callee(t) in (SERVER + "process_command_parts", SERVER + "process_normal_command")]
+    execs = sorted({x for _, _, x in shared.exec_sites(ctx, he, (SERVER + "process_command_parts", SERVER + "process_normal_command"))})
     if not execs:
         return None
     for fld, ws in st_he.items():
